@@ -10,6 +10,7 @@ import (
 	"fmt"
 	"runtime"
 	"strings"
+	"sync/atomic"
 	"time"
 
 	"rare/cmd/helpers"
@@ -49,6 +50,10 @@ func runAggTraced(c traceCfg) tracedResult {
 	if c.procs > 0 {
 		defer runtime.GOMAXPROCS(runtime.GOMAXPROCS(c.procs))
 	}
+	if j := c05Jitter; j != 0 { // schedule perturbation at every trace point (hook VerifTraceSetProbe)
+		extractor.VerifTraceSetProbe(jitterProbe(j))
+		defer extractor.VerifTraceSetProbe(nil)
+	}
 	extractor.VerifTraceStart()
 	b, cleanup := openBatcher(c)
 	ig, _ := extractor.NewIgnoreExpressions("{1}")
@@ -85,6 +90,26 @@ func runAggTraced(c traceCfg) tracedResult {
 	sum += fmt.Sprintf("-%d-%d", renders, last)
 	cleanup()
 	return tracedResult{evs: evs, summary: sum}
+}
+
+// c05Jitter != 0: the next traced runs yield / pause at the trace points – the points that are transitions of the
+// models – following a pseudo-random sequence seeded with it, so that the logs the trace machines judge come from
+// interleavings the plain scheduler practically never produces (a reader parked between its last send and its exit
+// block, a worker between counting and sending, main between receive and lock, the ticker between tick and lock).
+var c05Jitter uint64
+var c05JitterRuns int
+
+func jitterProbe(seed uint64) func(string, string) {
+	var ctr uint64
+	return func(ev string, s string) {
+		x := mixSeed(seed + atomic.AddUint64(&ctr, 1)*0x9e3779b97f4a7c15)
+		switch {
+		case x%16 == 0:
+			time.Sleep(time.Duration(20+x>>8%400) * time.Microsecond)
+		case x%4 == 1:
+			runtime.Gosched()
+		}
+	}
 }
 
 func aggAnswer(summary string) string {
@@ -200,6 +225,31 @@ func aggTraceGen(r *Rand, tier string) []string {
 		c.script = fmt.Sprintf("%d:n,0:n:%d", len(c.inputs[0])+1, Pick(r, []int{103, 108, 115, 125}))
 		c.renderMs = Pick(r, []int{50, 70})
 		mk(c)
+	}
+	// (e) the same shapes under schedule perturbation at the trace points
+	n = 4
+	if thorough {
+		n = 60
+	}
+	for i := 0; i < n; i++ {
+		c := base(Pick(r, []int{5, 40, 120}))
+		switch i % 4 {
+		case 0:
+			c.script = slowScript(r, len(c.inputs[0]), Pick(r, []int{1, 3, 8}), []int{5, 20, 40})
+		case 1, 3: // files: the reader exit block (sema release, status bookkeeping, wg.Done) against wg.Wait / close
+			c.mode, c.flushMs = "f", 0
+			c.inputs = nil
+			for k, nin := 0, Pick(r, []int{2, 5, 9}); k < nin; k++ {
+				c.inputs = append(c.inputs, genLinesSmallKeys(r, Pick(r, []int{0, 2, 30})))
+			}
+			c.readers = Pick(r, []int{1, 2, 4})
+		default:
+			c.sampleUs = Pick(r, []int{0, 200, 2000})
+		}
+		c05Jitter = uint64(r.Intn(1<<30)) + 1
+		c05JitterRuns++
+		mk(c)
+		c05Jitter = 0
 	}
 	// (d) back-pressure: the loop starts late (readChan full, workers parked in their send) and then drains
 	// with a busy consumer, also on one P; every render's matched total must cover the displayed counts
